@@ -400,3 +400,126 @@ func c20DocRole(i int) string {
 	}
 	return "several earlier calls"
 }
+
+// ---- long flat documents and truncated documents ---------------------------------------------------------
+//
+// c20.long: (1) documents with N sibling containers (N around the library's nesting limit of 10000 and beyond),
+// evaluated with paths that select a member behind them, a member of one of them, and all of them; (2) every
+// truncation of a set of small documents, for every accepted path of up to three selectors over {a, b, 0, 1, *}:
+// the reference says "not a document" for a truncation, so the library must return an error — it must in
+// particular return (c20V passes only panics on to C06).
+
+func init() {
+	work.Register("C20", "c20.long", c20Long)
+	work.Register("C06", "c06.pathtrunc", c20Long)
+}
+
+func c20Long(c *work.Ctx) {
+	ns := []int{10, 4999, 5001, 9999, 10000, 10001, 12000}
+	if !c.Quick() {
+		ns = append(ns, 20001, 50000)
+	}
+	type fam struct {
+		name string
+		doc  func(n int) string
+	}
+	rep := func(open, inner, close string, n int) string {
+		var sb strings.Builder
+		sb.WriteString(open)
+		for i := 0; i < n; i++ {
+			if i > 0 {
+				sb.WriteByte(',')
+			}
+			sb.WriteString(strings.Replace(inner, "#", fmt.Sprint(i), -1))
+		}
+		sb.WriteString(close)
+		return sb.String()
+	}
+	fams := []fam{
+		{"object with N objects in an array, then a member", func(n int) string { return rep(`{"a":[`, `{"b":#}`, `],"b":1}`, n) }},
+		{"object with N arrays in an object, then a member", func(n int) string { return rep(`{"a":{`, `"k#":[#]`, `},"b":1}`, n) }},
+		{"array of N objects", func(n int) string { return rep(`[`, `{"a":#,"b":[#]}`, `]`, n) }},
+	}
+	paths := []string{"$.b", "$.a", "$.a[0].b", "$.a[1]", "$.a[*].b", "$[0].a", "$[1].b[0]", "$[*].a", "$.a.k0", "$.a.k1[0]"}
+	for _, f := range fams {
+		for _, n := range ns {
+			doc := []byte(f.doc(n))
+			for _, ps := range paths {
+				id := fmt.Sprintf("long: %s, N=%d, path %s", f.name, n, ps)
+				if !c.BeginS(id) {
+					continue
+				}
+				p, err := json.CreatePath(ps)
+				steps, ok := oracle.ParsePath(ps)
+				if err != nil || !ok {
+					c.EndCase()
+					continue
+				}
+				got := c20Extract(p, doc)
+				c.Count("long_extractions", 1)
+				if kind := c20Compare(steps, got, doc); kind != "" {
+					nb := "N below 10000"
+					if n >= 10000 {
+						nb = "N from 10000"
+					}
+					c20V(c, fmt.Sprintf("%s : long document : %s : %s : %s", strings.SplitN(kind, ":", 2)[0], f.name, c20StepKinds(steps), nb), id, fmt.Sprintf("%s gives %s", ps, clip([]byte(got.String()))))
+				}
+				c.Outcome("done")
+				c.EndCase()
+			}
+		}
+	}
+	// (2) truncations: the library's verdicts on documents it only partly reads are listed under C20 already
+	// (c20.paths); here only "it returns" is judged, which is C06's subject
+	if c.Prop != "C06" {
+		return
+	}
+	docs := []string{`{"a":{"b":[10,20]},"b":[1,{"a":2}]}`, `[1,[2,3],{"a":[4]}]`, `{"a":[{"b":10},{"b":"x\"y"}]}`, ` { "a" : [ true , null ] } `}
+	syms := []string{".a", ".b", "[0]", "[1]", "[*]", "..a"}
+	var tpaths []string
+	var rec func(cur string, d int)
+	rec = func(cur string, d int) {
+		if d > 0 {
+			tpaths = append(tpaths, cur)
+		}
+		if d == 3 {
+			return
+		}
+		for _, s := range syms {
+			rec(cur+s, d+1)
+		}
+	}
+	rec("$", 0)
+	for _, ps := range tpaths {
+		id := "truncations: path " + ps
+		if !c.BeginS(id) {
+			continue
+		}
+		p, err := json.CreatePath(ps)
+		steps, ok := oracle.ParsePath(ps)
+		if err == nil && ok {
+			for _, d := range docs {
+				for k := 0; k <= len(d); k++ {
+					doc := []byte(d[:k])
+					got := c20Extract(p, doc)
+					c.Count("truncated_extractions", 1)
+					kind := c20Compare(steps, got, doc)
+					// Path.Unmarshal on the same input must return as well
+					var v interface{}
+					if pn, msg := util.Safe(func() { _ = p.Unmarshal(append([]byte(nil), doc...), &v) }); pn && kind == "" {
+						kind = "panic:Path.Unmarshal:" + util.ErrClass(msg)
+					}
+					if kind != "" {
+						where := "truncated"
+						if k == len(d) {
+							where = "complete"
+						}
+						c20V(c, fmt.Sprintf("%s : %s document : %s", strings.SplitN(kind, ":", 2)[0], where, c20StepKinds(steps)), fmt.Sprintf("%s on %q", ps, doc), fmt.Sprintf("%s on %q gives %s (%s)", ps, doc, clip([]byte(got.String())), kind))
+					}
+				}
+			}
+		}
+		c.Outcome("done")
+		c.EndCase()
+	}
+}
